@@ -1,4 +1,6 @@
 mod checks;
+mod pure;
+mod seq;
 mod rcgen;
 mod rcworld;
 mod runner;
